@@ -50,9 +50,13 @@ def is_ancestor(a, b):
 
 def make_wrapper(doc, kind):
     if kind == 'Extensions':
-        return doc.createElementNS(SAMLP, 'samlp:Extensions')
+        w = doc.createElementNS(SAMLP, 'samlp:Extensions')
+        w.setAttribute('xmlns:samlp', SAMLP)
+        return w
     if kind == 'Advice':
-        return doc.createElementNS(SAML, 'saml:Advice')
+        w = doc.createElementNS(SAML, 'saml:Advice')
+        w.setAttribute('xmlns:saml', SAML)
+        return w
     if kind == 'Object':
         w = doc.createElementNS(DS, 'ds:Object')
         w.setAttribute('xmlns:ds', DS)
@@ -62,7 +66,9 @@ def make_wrapper(doc, kind):
         w.setAttribute('xmlns:f', FOREIGN)
         return w
     if kind == 'Response':
-        return doc.createElementNS(SAMLP, 'samlp:Response')
+        w = doc.createElementNS(SAMLP, 'samlp:Response')
+        w.setAttribute('xmlns:samlp', SAMLP)
+        return w
     raise ValueError(kind)
 
 
@@ -124,11 +130,19 @@ def apply(doc, op):
 
 
 def apply_all(xml, ops):
-    doc = xmlsec.parse_doc(xml)
+    try:
+        doc = xmlsec.parse_doc(xml)
+    except xmlsec.Fail:
+        return None
     for op in ops:
         if not apply(doc, op):
             return None
-    return doc.documentElement.toxml()
+    out = doc.documentElement.toxml()
+    try:
+        xmlsec.parse_doc(out)          # an edit must yield a well-formed document to count as a state
+    except xmlsec.Fail:
+        return None
+    return out
 
 
 # ------------------------------------------------------------ enumerations
